@@ -25,9 +25,10 @@ ASSUMPTIONS = ['reference model vt/ref.py (documented semantics; readings where 
                'the fakes speak the pycmsgen / pyunigen / pycryptosat interface as the library uses it (C27 checks the text protocol; '
                'the real samplers are additionally run once per design as a non-deciding smoke test)']
 BUDGET_S = {'quick': 90, 'thorough': 400}
-STRATA = ['S1', 'S1x', 'S2', 'S3', 'S4', 'S5', 'S6']
-QUICK_CAPS = dsw.QUICK_CAPS
-CAP = {'quick': 400, 'thorough': 4000}
+STRATA = ['S1', 'S1x', 'S2', 'S2s', 'S3', 'S4', 'S5', 'S6']
+QUICK_CAPS = dsw.QUICK_CAPS_BIG
+CAP = {'quick': 250, 'thorough': 4000}
+N_LARGE = {'quick': 60, 'thorough': 400}
 
 
 def items(tier, seed):
@@ -36,9 +37,11 @@ def items(tier, seed):
 
 def run_item(item):
     import numpy
-    c, sk = dsw.setup(item['spec'], item['tier'])
+    c, sk = dsw.setup(item['spec'], item['tier'], fallback_checker=True)
     if sk:
         return sk
+    if c.ref is None:
+        return run_large(item, c)
     cap = CAP[item['tier']]
     sig0 = dict(c.sig)
     viols = []
@@ -113,6 +116,50 @@ def run_item(item):
         return core.skip('; '.join(skipped)[:120] or 'no run')
     return core.ok(states=max(1, states), transitions=max(1, transitions), validated=validated, nontrivial=nt, outcome=outcome,
                    skipped_runs=skipped)
+
+
+def run_large(item, c):
+    """The valid set is too large to enumerate: a bounded number of solver answers (IterateSATGen under the three answer
+    orders, n = N_LARGE each; the real CMSGen / UniGen as a supplement) is checked with the single-sequence membership oracle.
+    Not exhaustive over the models of such a design (reported per item)."""
+    import numpy
+    n = N_LARGE[item['tier']]
+    viols = []
+    states = transitions = 0
+    runs = []
+    numpy.random.seed(0)
+    for g, how in (('sat', 'real'), ('sat', 'asc'), ('sat', 'desc'), ('cms', 'real'), ('uni', 'real')):
+        block = dsw.rebuild(c)
+        sig = dict(c.sig, gen=g, solver=how, large=True)
+        if how in ('asc', 'desc'):
+            log = []
+            with seams.scripted_cryptominisat(how, block.variables_per_sample(), log):
+                exps, e, out = dsw.synth(block, n, g)
+        else:
+            exps, e, out = dsw.synth(block, n if g == 'sat' else 10, g)
+        transitions += 1
+        if e is not None:
+            continue
+        try:
+            tup = dsw.tuples(exps, c.design)
+        except (KeyError, IndexError) as e2:
+            viols.append(core.viol('malformed_result', dict(sig, exc=type(e2).__name__), design=dsw.brief(c.spec), message=str(e2)[:200]))
+            continue
+        states += len(tup)
+        runs.append((g, how, len(tup)))
+        ok, bad = dsw.all_valid(c, tup)
+        if not ok:
+            viols.append(core.viol('invalid_sequence', sig, design=dsw.brief(c.spec), invalid_example=bad, T_ref=c.checker.Ts))
+    if viols:
+        return core.bad(viols, states=max(1, states), transitions=max(1, transitions), nontrivial=True, outcome=[runs, 'large'])
+    if not runs:
+        return core.skip('every strategy raises (C08)')
+    return core.ok(states=max(1, states), transitions=max(1, transitions), validated=states, nontrivial=True, outcome=[runs, 'large'],
+                   exhaustive_over_models=False)
+
+
+def finalize(items_, results, tier):
+    return {'designs_checked_by_membership_oracle_only': sum(1 for r in results if r.get('exhaustive_over_models') is False)}
 
 
 sample_of = dsw.sample_of
